@@ -320,7 +320,7 @@ class Ctx:
             self.violate('must-pass|%s|%s|%s' % (f.path, start.desc if start else 'entry', '/'.join(sorted({p.desc for p in through})) or 'summaries'),
                          'MUST-PASS violated: %s' % desc, f, start.line if start else f.line, path)
 
-    def each_iteration_passes(self, f, targets, what, key):
+    def each_iteration_passes(self, f, targets, what, key, allow_return=False):
         """every iteration of the loop(s) whose body contains a target passes a target before the
         loop advances (reaches its `Iterator::next` again) or the function returns successfully."""
         if f is None or not targets:
@@ -337,7 +337,7 @@ class Ctx:
             n_checked += 1
             r = core.reach(f, start=(n_.bb, len(f.blocks[n_.bb]['s']) - 1), cut_edges=e_none, cut_blocks=tb | core.error_blocks(f))
             looped = any(f.succ(bb_)[si_][0] == n_.bb for (bb_, si_) in r['edges'])
-            fin = any(rb in r['term'] for rb in f.ret_blocks())
+            fin = (not allow_return) and any(rb in r['term'] for rb in f.ret_blocks())
             self._ob(not (looped or fin), self.sample('must-pass', f, n_.line, what))
             if looped or fin:
                 self.violate('must-pass|%s|%s' % (f.path, key), 'loop body can be completed without %s: %s' % (targets[0].desc, what), f, n_.line)
